@@ -15,7 +15,7 @@ reg("C04",
     technique="exhaustive enumeration per generated server declaration (gen/servers.py: atoms alone, hand written combinations and a pair-wise covering "
               "family over characteristic options; reference attribute table computed independently from the documented handle rules and the Core "
               "spec attribute layout): every attribute index and every handle 0..last+2, 0xFFFF is evaluated on the real handle_index_mapping<> and "
-              "through ATT (Find Information, Read) on the real server",
+              "through ATT (Find Information, Read, Read Blob at offset 0 and inside the value, Read Multiple, Read By Type) on the real server",
     rule="one evaluation = one index or handle checked against handle_by_index / index_by_handle / first_index_by_handle / attribute_at, or one ATT "
          "request whose response is compared with the reference type / value; a class = section x attribute kind (or position of the handle: "
          "on attribute, in gap, before first, beyond last) x outcome",
